@@ -333,14 +333,9 @@ theorem alter_before_setup (m : Mdl K) (h : m.isSetup = false) (ha : m.addressed
 
 /-! ## time constants -/
 
-/-- no `Group.set(attr='v')` in the sequence (it bypasses the propagation to `dae.Tf`) -/
-def noGroupSetV : Op K → Prop
-  | .gset _ _ .v _ => False
-  | _ => True
-
 theorem setVCell_tf (x : K) (c : Cell K) : (setVCell true x c).TfOk := by simp [setVCell, Cell.TfOk]
 
-theorem next_tfInv (m : Mdl K) (op : Op K) (h : m.TfInv) (hn : noGroupSetV op) : (next m op).TfInv := by
+theorem next_tfInv (m : Mdl K) (op : Op K) (h : m.TfInv) : (next m op).TfInv := by
   obtain ⟨h1, h2⟩ := h
   unfold next
   split
@@ -384,7 +379,12 @@ theorem next_tfInv (m : Mdl K) (op : Op K) (h : m.TfInv) (hn : noGroupSetV op) :
         simpa [setVinCell, Cell.TfOk] using this
     | gset p uid attr x =>
       cases attr with
-      | v => exact absurd hn (by simp [noGroupSetV])
+      | v =>
+        refine ⟨h1, fun hc => ?_⟩
+        have ha : m.addressed = true := hc
+        refine modCell_forall_tc (P := Cell.TfOk) m p uid _ (h2 ha) ?_
+        intro q c _ htc _
+        simp [htc, ha, setVCell, Cell.TfOk]
       | vin =>
         refine ⟨h1, fun hc => ?_⟩
         have ha : m.addressed = true := hc
@@ -416,24 +416,23 @@ theorem next_tfInv (m : Mdl K) (op : Op K) (h : m.TfInv) (hn : noGroupSetV op) :
     | dumpXlsx => exact ⟨h1, h2⟩
     | dumpJson => exact ⟨h1, h2⟩
 
-/-- **a time constant altered through `alter` (model or group) or `Model.set` is what `dae.Tf` and the mass
-matrix `Teye` hold**, after every operation sequence without `Group.set(attr='v')`
-(`_partial`: with it the statement is FALSE for the real code, see `group_set_skips_tf`) -/
-theorem time_constant_propagates_partial (ops : List (Op K)) : ∀ (m : Mdl K), m.TfInv →
-    (∀ op ∈ ops, noGroupSetV op) → (run m ops).TfInv := by
+/-- **a time constant altered through `alter` or `set` — of the model or of its group — is what `dae.Tf` and the mass
+matrix `Teye` hold**, after EVERY operation sequence (full strength since the repair of `Group.set`, which assigned
+the array element directly: finding `group-set-skips-tf`) -/
+theorem time_constant_propagates (ops : List (Op K)) : ∀ (m : Mdl K), m.TfInv → (run m ops).TfInv := by
   induction ops with
-  | nil => intro m h _; exact h
+  | nil => intro m h; exact h
   | cons op ops ih =>
-    intro m h hn
-    exact ih (next m op) (next_tfInv m op h (hn op (by simp))) (fun o ho => hn o (by simp [ho]))
+    intro m h
+    exact ih (next m op) (next_tfInv m op h)
 
 /-- the invariant holds initially (nothing is addressed before TDS initialisation) -/
 theorem tfInv_initial (m : Mdl K) (h : m.addressed = false) : m.TfInv :=
   ⟨fun hc => by simp [h] at hc, fun hc => by simp [h] at hc⟩
 
-/-- **Counterexample (finding `group-set-skips-tf`)**: after TDS initialisation `Group.set('M', idx, 'v', 60)`
-changes the parameter but `dae.Tf` / `Teye` keep the old value 12, while `Model.set` and `alter` update them. -/
-theorem group_set_skips_tf :
+/-- the history that failed on the pinned tree (`group-set-skips-tf`): after TDS initialisation
+`Group.set('M', idx, 'v', 60)` now reaches `dae.Tf` / `Teye` like `Model.set` and `alter` do (they kept 12). -/
+theorem group_set_reaches_tf_witness :
     let m : Mdl ℚ :=
       { hasBus := false, hasBus1 := false, hasNode := false, hasNode1 := false, inPflow := false,
         inTds := true, Sb := 100, ext := [⟨1, 1, 1, 1⟩, ⟨1, 1, 1, 1⟩, ⟨1, 1, 1, 1⟩],
@@ -443,7 +442,7 @@ theorem group_set_skips_tf :
     let m1 := run m [.setup, .pflow, .tdsInit, .gset 0 0 .v 60, .set 0 1 .v 50, .alter 0 2 7 .v true]
     m1.addressed = true ∧
     (m1.params.head?.map (·.cells.map (fun c => (c.v, c.tf, c.teye)))) =
-      some [(60, 12, 12), (50, 50, 50), (14, 14, 14)] := by
+      some [(60, 60, 60), (50, 50, 50), (14, 14, 14)] := by
   decide +kernel
 
 /-- a small concrete system used for the non-vacuity examples: one machine-like model class with two
@@ -476,13 +475,8 @@ example : ((run demo [.setup, .alter 0 0 7 .v true, .alter 0 1 30 .vin false]).p
     (·.cells.map (fun c => (c.v, c.vin, c.pu)))) = some [(14, 7, 2), (30, 10/3, 9)] := by
   decide +kernel
 
-/-- the hypotheses of `time_constant_propagates_partial` are satisfiable -/
-example : demo.TfInv ∧ ∀ op ∈ ([.setup, .pflow, .tdsInit, .alter 0 1 3 .v true, .set 0 0 .v 4, .gset 0 0 .vin 1] : List (Op ℚ)),
-    noGroupSetV op := by
-  refine ⟨tfInv_initial demo rfl, ?_⟩
-  intro op hop
-  simp at hop
-  rcases hop with rfl | rfl | rfl | rfl | rfl | rfl <;> trivial
+/-- the hypothesis of `time_constant_propagates` is satisfiable -/
+example : demo.TfInv := tfInv_initial demo rfl
 
 example : let m1 := run demo [.setup, .pflow, .tdsInit, .alter 0 1 3 .v true, .set 0 0 .v 4]
     m1.addressed = true ∧
